@@ -118,10 +118,7 @@ Fixpoint cmp_polls (idx : N) (m i : list val) : list val :=
       let f := cmp_field F_POLL_RES (VL [VN idx; mr]) (VL [VN idx; ir])
                ++ cmp_field F_POLL_HINT (VL [VN idx; mh]) (VL [VN idx; ih])
                ++ cmp_field F_POLL_EOS (VL [VN idx; me]) (VL [VN idx; ie]) in
-      match f with
-      | [] => cmp_polls (idx + 1) m' i'
-      | _ => f                                      (* after the first difference states differ: stop *)
-      end
+      f ++ cmp_polls (idx + 1) m' i'                (* keep going: a later field may be the constrained one *)
   | _, _ => [finding K_DIVERGE F_POLLS (VL m) (VL i)]
   end.
 
@@ -148,6 +145,6 @@ Definition cmp_obs (model impl : val) : list val :=
       cmp_field F_STATUS ms is_
       ++ cmp_hdrs mh ih
       ++ cmp_field F_HINT0 mh0 ih0 ++ cmp_field F_EOS0 me0 ie0
-      ++ cmp_polls 0 mp ip ++ cmp_field F_CALLS mc ic
+      ++ firstn 12 (cmp_polls 0 mp ip) ++ cmp_field F_CALLS mc ic
   | _, _ => cmp_field F_SHAPE model impl
   end.
